@@ -98,6 +98,7 @@ class StubFreeblock:
         self.page_number = page_number
         self.index = index
         self.start_offset = start_offset
+        self.content_start_offset = start_offset + 4
         self.byte_size = byte_size
         self.content = content
 
@@ -143,7 +144,7 @@ def show_cell(c, data=None):
     if data is None:
         dg = "nodata"
     else:
-        raw = bytes(data[c.start_offset:c.end_offset])
+        raw = bytes(data[p.serial_type_definition_start_offset:c.end_offset])
         dg = f"{len(raw)}/{fnv(raw)}" if hashlib.md5(raw).hexdigest().upper() == c.md5_hex_digest else "bad-md5"
     if c.byte_size != c.end_offset - c.start_offset:
         dg += "!size"
@@ -211,8 +212,8 @@ class CellTap:
 
 
 # ------------------------------------------------------------------------------------ region ops
-def region_line(sig, loc, ba, page_size, page_offset, start, fb_size, data):
-    return (f"carve.region {sig_tokens(sig)} {loc} {b01(ba)} {page_size} {page_offset} {start} "
+def region_line(sig, loc, page_size, page_offset, start, fb_size, data):
+    return (f"carve.region {sig_tokens(sig)} {loc} {page_size} {page_offset} {start} "
             f"{fb_size if fb_size is not None else '-'} {hx(data)}")
 
 
